@@ -19,8 +19,15 @@ RULE = ("fault injection matrix on generated models (profiles rich/contact/smoot
         "warning set is derived from an independent predicate (NaN or |x| > mjMAXVAL) applied to the injected qpos/qvel/clamped "
         "ctrl and to qacc of a twin mjData on which only mj_forward ran; the expected post-state after a triggered reset is a "
         "twin driven by mj_resetData + mj_step. Organic blow-ups: stiff models with huge timesteps stepped 40 times with the "
-        "same per-step monitors. An ASan+UBSan subsample runs the same matrix. distinct = (target array, index class, value "
-        "class, autoreset, integrator); non-trivial = the step ran and the injected element exists")
+        "same per-step monitors. Sleep-enabled class (mjENBL_SLEEP): generated multi-tree models (3-6 trees rooted in "
+        "free/hinge/slide/ball joints with 0-2 child joints; each tree asleep via sleep='init', asleep by stepping while "
+        "stationary, or awake; orders asleep-first / asleep-last / interleaved / random) with the same value set written into "
+        "{qpos, qvel, qfrc_applied, xfrc_applied, ctrl} at an element of an AWAKE tree whose dof address lies behind a sleeping "
+        "tree (awake_hi), of an awake tree in front of every sleeping tree (awake_lo) or of a SLEEPING tree (asleep_lo: address "
+        "below nv_awake, asleep_hi), judged by the same predicate / twin oracle restricted to the awake dofs, where awake is "
+        "read from mjData.tree_asleep < 0 (documented) and never from the engine's dof_awake_ind lists. "
+        "An ASan+UBSan subsample runs the same matrix. distinct = (target array, index class, value "
+        "class, autoreset, integrator[, sleep order]); non-trivial = the step ran and the injected element exists")
 ASSUMPTIONS = [
     "|x| == mjMAXVAL exactly is not bad (mju_isBad doc: 'Return 1 if nan or abs(x)>mjMAXVAL')",
     "mj_resetData clears the warning counters, so after a triggered reset the only requirement is number >= 1 for the "
@@ -33,7 +40,15 @@ ASSUMPTIONS = [
     "finiteness is then not required",
     "engine errors (mju_error) raised while stepping a non-finite state with autoreset disabled are counted and skipped; the "
     "statement does not promise an error-free step there",
-    "sleeping is disabled (the checks skip sleeping dofs by design)",
+    "general matrix: sleeping is disabled. Sleep class (mjENBL_SLEEP): mj_checkVel / mj_checkAcc look at the dofs of awake trees only "
+    "(engine design: sleeping trees are 'temporarily removed from the pipeline', computation/index.rst 'Sleeping islands'), so the "
+    "predicate is applied to qvel of the trees that are awake when mj_step starts and to qacc (forward-only twin) of the trees that are "
+    "awake after the twin's position stage; mj_checkPos and the bad-ctrl test are not filtered (qpos / ctrl of sleeping trees count). "
+    "A non-zero (bytewise) qvel / qfrc_applied / xfrc_applied or a changed qpos in a sleeping tree wakes it in the position stage and "
+    "'the woken island will behave exactly as if it was awake all along' (same section; programming/simulation.rst 'Waking'): a bad "
+    "qvel written into a SLEEPING tree is therefore past mj_checkVel when the tree wakes; the documentation does not say which "
+    "counter reports it, so BADQVEL is neither required nor forbidden there (counted in sleep_asleep_qvel_reported_as_*), BADQACC is "
+    "required iff the twin's qacc is bad on an awake dof, and the state after the step must be finite / equal to the reset twin",
     "models whose reset state itself yields a bad qacc (degenerate generated models: NaN acceleration from finite forces at "
     "qpos0) are skipped and counted: an automatic reset cannot contain those, the documentation promises a reset, not a cure",
     "which of qacc's elements are bad is decided on a twin by mj_forward (the forward dynamics itself is trusted here; "
@@ -415,8 +430,240 @@ def badctrl_difference_is_raw_ctrl_in_qderiv(L, m, pre):
         B.free()
 
 
+SLEEP_PATTERNS = ["asleep_first", "asleep_last", "interleaved", "random"]
+STARGETS = ["qpos", "qvel", "qfrc_applied", "xfrc_applied", "ctrl"]
+STWEIGHT = [0.14, 0.24, 0.24, 0.22, 0.16]
+SPOS = ["awake_hi", "asleep_lo", "asleep_hi", "awake_lo"]
+SPOSW = {"awake_hi": 0.45, "asleep_lo": 0.25, "asleep_hi": 0.15, "awake_lo": 0.15}
+
+
+def gen_sleep_model(rng):
+    """multi-tree model for the sleep-enabled class. Returns (xml, meta); meta['roles'][t] in {'init', 'auto', 'awake'} is the INTENDED
+    state of tree t after the warm-up (the actual state is read from mjData.tree_asleep), meta['never'][t] marks sleep='never'."""
+    ntree = int(rng.integers(3, 7))
+    pattern = SLEEP_PATTERNS[int(rng.integers(0, len(SLEEP_PATTERNS)))]
+    if pattern == "asleep_first":
+        k = int(rng.integers(1, ntree))
+        asleep = [t < k for t in range(ntree)]
+    elif pattern == "asleep_last":
+        k = int(rng.integers(1, ntree))
+        asleep = [t >= ntree - k for t in range(ntree)]
+    elif pattern == "interleaved":
+        first = int(rng.integers(0, 2))
+        asleep = [(t + first) % 2 == 0 for t in range(ntree)]
+    else:
+        asleep = [bool(rng.random() < 0.5) for t in range(ntree)]
+        if all(asleep) or not any(asleep):
+            asleep[int(rng.integers(0, ntree))] = not asleep[0]
+    zero_g = bool(rng.random() < 0.65)
+    nocontact = bool(rng.random() < 0.7)
+    roles, never, bodies, acts = [], [], [], []
+    jn = 0
+    for t in range(ntree):
+        role = ("auto" if (zero_g and rng.random() < 0.5) else "init") if asleep[t] else "awake"
+        roles.append(role)
+        nchild = int(rng.integers(0, 3))
+        has_act = bool(rng.random() < 0.55)
+        nv_ = bool(role == "awake" and rng.random() < 0.5)
+        never.append(nv_)
+        attr = ""
+        if role == "init":
+            attr = ' sleep="init"'
+        elif role == "auto":
+            attr = ' sleep="allowed"'
+        elif nv_:
+            attr = ' sleep="never"'
+        root = ["free", "hinge", "slide", "ball"][int(rng.choice(4, p=[0.3, 0.3, 0.25, 0.15]))]
+        actable = []
+
+        def joint(kind):
+            nonlocal jn
+            name = "j%d" % jn
+            jn += 1
+            if kind == "free":
+                return '<freejoint name="%s"/>' % name
+            a = rng.normal(size=3)
+            a /= np.linalg.norm(a)
+            extra = ""
+            if rng.random() < 0.5:
+                extra += ' damping="%g"' % float(rng.choice([0.05, 0.5]))
+            if kind != "ball" and rng.random() < 0.3:
+                extra += ' stiffness="%g"' % float(rng.choice([1.0, 20.0]))
+            if kind in ("hinge", "slide"):
+                actable.append(name)
+            return '<joint name="%s" type="%s" axis="%.4f %.4f %.4f"%s/>' % (name, kind, a[0], a[1], a[2], extra)
+
+        def geom():
+            g = int(rng.integers(0, 3))
+            if g == 0:
+                return '<geom type="sphere" size="%.3f"/>' % rng.uniform(0.04, 0.1)
+            if g == 1:
+                return '<geom type="capsule" size="%.3f" fromto="0 0 0 %.3f 0 %.3f"/>' % (rng.uniform(0.02, 0.05), rng.uniform(0.1, 0.25),
+                                                                                     rng.uniform(-0.2, 0.2))
+            return '<geom type="box" size="%.3f %.3f %.3f"/>' % tuple(rng.uniform(0.03, 0.1, size=3))
+
+        b = '<body name="t%d" pos="%.3f %.3f %.3f"%s>%s%s' % (t, 1.5 * t, rng.uniform(-0.2, 0.2), rng.uniform(0.5, 1.0), attr, joint(root), geom())
+        for ch in range(nchild):
+            kind = ["hinge", "slide", "ball"][int(rng.choice(3, p=[0.5, 0.3, 0.2]))]
+            b += '<body pos="%.3f %.3f %.3f">%s%s' % (rng.uniform(0.1, 0.25), rng.uniform(-0.1, 0.1), rng.uniform(-0.1, 0.1), joint(kind), geom())
+        b += "</body>" * (nchild + 1)
+        bodies.append(b)
+        if has_act and actable:
+            for jname in actable[:int(rng.integers(1, 3))]:
+                kind = ["motor", "position", "velocity", "intvelocity"][int(rng.choice(4, p=[0.4, 0.25, 0.2, 0.15]))]
+                lim = ""
+                if kind == "intvelocity":
+                    lim = ' actrange="-1 1"'
+                if rng.random() < 0.5:
+                    lim += ' ctrllimited="true" ctrlrange="-1 1"'
+                prm = {"motor": ' gear="%g"' % float(rng.choice([1.0, 5.0])), "position": ' kp="5"', "velocity": ' kv="0.5"',
+                       "intvelocity": ' kp="5"'}[kind]
+                acts.append('<%s joint="%s"%s%s/>' % (kind, jname, prm, lim))
+    xml = ('<mujoco><option timestep="0.002" gravity="%s"><flag sleep="enable"%s/></option><worldbody>%s%s</worldbody>%s</mujoco>'
+           % ("0 0 0" if zero_g else "0 0 -9.81", ' contact="disable"' if nocontact else "",
+              '<geom type="plane" size="5 5 .1" pos="0 0 -3"/>' if not nocontact else "", "".join(bodies),
+              ("<actuator>%s</actuator>" % "".join(acts)) if acts else ""))
+    return xml, {"roles": roles, "never": never, "pattern": pattern, "zero_g": zero_g}
+
+
+def awake_dofs(m, d):
+    """bool[nv]: dof belongs to a tree that is awake. mjData.tree_asleep: 'A negative value means a tree is awake, non-negative means
+    asleep' (programming/simulation.rst 'Sleeping islands'). Deliberately NOT the engine's dof_awake_ind / nv_awake lists, which are
+    what the checks under test iterate over."""
+    if not m.n("nv"):
+        return np.zeros(0, dtype=bool)
+    return d["tree_asleep"][m["dof_treeid"]] < 0
+
+
+SLEEP_QVEL_SIG = "sleep:bad-qvel-in-sleeping-tree-wakes-after-mj_checkVel:nonfinite-state-after-step"
+
+
+def asleep_qvel_passes_checkvel(L, m, PRE):
+    """mechanism confirmation for SLEEP_QVEL_SIG (findings/C30-sleeping-tree-bad-qvel-passes-checkvel.md) on the failing case:
+    (1) before the step every bad qvel sits in a tree that is asleep, qpos and the qvel of the awake trees are fine; (2) in a
+    forward-only twin those trees are awake after the position stage (the documented wake on a non-zero qvel) and qacc of all
+    awake dofs is fine, so mj_checkAcc has nothing to report; (3) counterfactual: the SAME pre-step mjData stepped with mjENBL_SLEEP
+    cleared (mj_checkVel then looks at every dof) raises BADQVEL, resets and returns a finite state. Only then is the silent
+    non-finite result attributed to mj_checkVel running before the tree wakes."""
+    ev = {}
+    aw = awake_dofs(m, PRE)
+    badv = refbad(PRE["qvel"])
+    ev["bad_qvel_dofs"] = [int(i) for i in np.flatnonzero(badv)]
+    ev["all_bad_qvel_in_sleeping_trees"] = bool(badv.any() and not badv[aw].any() and not refbad(PRE["qpos"]).any())
+    if not ev["all_bad_qvel_in_sleeping_trees"]:
+        return False, ev
+    T = PRE.copy()
+    try:
+        T.forward()
+        awT = awake_dofs(m, T)
+        ev["trees_awake_after_position_stage"] = bool(awT[badv].all())
+        ev["twin_qacc_fine_on_awake_dofs"] = not bool(refbad(T["qacc"][awT]).any())
+    except drv.MjError as e:
+        ev["twin_forward_error"] = str(e)[:80]
+        return False, ev
+    finally:
+        T.free()
+    if not (ev["trees_awake_after_position_stage"] and ev["twin_qacc_fine_on_awake_dofs"]):
+        return False, ev
+    en0 = int(m.opt["enableflags"])
+    C = PRE.copy()
+    try:
+        m.opt["enableflags"] = en0 & ~E.mjENBL_SLEEP
+        C.step(1)
+        ev["sleep_disabled_twin_BADQVEL"] = _counts(C)["mjWARN_BADQVEL"]
+        ev["sleep_disabled_twin_finite"] = not _finite_state(C)
+    except drv.MjError as e:
+        ev["sleep_disabled_twin_error"] = str(e)[:80]
+        return False, ev
+    finally:
+        m.opt["enableflags"] = en0
+        C.free()
+    return bool(ev["sleep_disabled_twin_BADQVEL"] >= 1 and ev["sleep_disabled_twin_finite"]), ev
+
+
+def _warm_sleep(L, m, d, rng, meta):
+    """warm-up for the sleep class: awake trees get a velocity, trees meant to fall asleep stay untouched long enough (mjMINAWAKE steps);
+    returns None if the pre-injection state has at least one sleeping and one awake tree and no warning, else a reason."""
+    d.reset()
+    tid = m["dof_treeid"]
+    roles = meta["roles"]
+    if len(roles) != m.n("ntree"):
+        return "tree_count_mismatch"
+    qv = d["qvel"]
+    for i in range(m.n("nv")):
+        t = int(tid[i])
+        if roles[t] == "awake" and not (meta["never"][t] and rng.random() < 0.3):
+            qv[i] = rng.normal() * 0.5
+    nu = m.n("nu")
+    atree = None
+    if nu:
+        atree = m["body_treeid"][m["jnt_bodyid"][m["actuator_trnid"].reshape(-1, 2)[:, 0]]]
+        for a in range(nu):
+            if roles[int(atree[a])] == "awake":
+                d["ctrl"][a] = rng.normal()
+    nstep = (int(E.mjMINAWAKE) + 2 + int(rng.integers(0, 5))) if "auto" in roles else int(rng.integers(1, 5))
+    d.step(nstep)
+    w = d.sv("warning")["number"]
+    if any(int(w[getattr(E, k)]) for k in BADW) or _finite_state(d):
+        return "warmup_diverged"
+    ta = d["tree_asleep"]
+    if not ((ta >= 0).any() and (ta < 0).any()):
+        return "no_mixed_sleep_state"
+    if nu and rng.random() < 0.3:
+        # finite controls on sleeping actuators do not wake their tree (simulation.rst 'Sleeping actuators')
+        for a in range(nu):
+            if ta[int(atree[a])] >= 0:
+                d["ctrl"][a] = rng.normal()
+    return None
+
+
+def sleep_index_classes(m, d, target):
+    """(class, flat index) for the sleep class: position of the element's tree relative to the sleeping trees in dof order.
+    awake_hi: awake dof with a sleeping dof at a lower address (its place in any awake list differs from its address);
+    awake_lo: awake dof in front of every sleeping dof; asleep_lo: sleeping dof whose address is below the number of awake dofs
+    (an awake-list position read as an address lands on it); asleep_hi: the other sleeping dofs."""
+    nv = m.n("nv")
+    aw = awake_dofs(m, d)
+    nawake = int(aw.sum())
+    first_asleep = int(np.flatnonzero(~aw)[0]) if (~aw).any() else nv
+    dcls = []
+    for i in range(nv):
+        if aw[i]:
+            dcls.append("awake_hi" if i > first_asleep else "awake_lo")
+        else:
+            dcls.append("asleep_lo" if i < nawake else "asleep_hi")
+    out = []
+    jt, qa, da = m["jnt_type"], m["jnt_qposadr"], m["jnt_dofadr"]
+    width = {int(E.mjJNT_FREE): (7, 6), int(E.mjJNT_BALL): (4, 3), int(E.mjJNT_HINGE): (1, 1), int(E.mjJNT_SLIDE): (1, 1)}
+    if target == "qpos":
+        for j in range(m.n("njnt")):
+            nqj, nvj = width[int(jt[j])]
+            out += [(dcls[int(da[j])], int(qa[j]) + k) for k in range(nqj)]
+    elif target in ("qvel", "qfrc_applied"):
+        out = [(dcls[i], i) for i in range(nv)]
+    elif target == "xfrc_applied":
+        bt, bd, bn = m["body_treeid"], m["body_dofadr"], m["body_dofnum"]
+        tree_first = m["tree_dofadr"]
+        for b in range(1, m.n("nbody")):
+            t = int(bt[b])
+            if t < 0:
+                continue
+            cl = dcls[int(bd[b])] if int(bn[b]) else dcls[int(tree_first[t])]
+            out += [(cl, 6 * b + k) for k in range(6)]
+    elif target == "ctrl":
+        trn = m["actuator_trnid"].reshape(-1, 2)[:, 0]
+        lim = m["actuator_ctrllimited"]
+        for a in range(m.n("nu")):
+            cl = dcls[int(da[int(trn[a])])]
+            out.append(("%s_%s" % (cl, "limited" if lim[a] else "unlimited"), a))
+    return out
+
+
 def _gen(c):
     rng = np.random.default_rng(c["mseed"])
+    if c.get("sleep"):
+        xml, c["_sleep_meta"] = gen_sleep_model(rng)
+        return xml
     prof = c["profile"]
     over = dict(mocap=0.7, actuators=0.8)
     if prof == "contact":
@@ -457,7 +704,13 @@ def inject_once(L, m, rng, P, c, k):
     nstep = int(rng.integers(1, 4))
     wseed = int(rng.integers(0, 2 ** 31))
     target = TARGETS[int(rng.choice(len(TARGETS), p=TWEIGHT))]
-    classes = index_classes(m, target)
+    sleepmode = bool(c.get("sleep"))
+    meta = c.get("_sleep_meta")
+    if sleepmode:
+        target = STARGETS[int(rng.choice(len(STARGETS), p=STWEIGHT))]
+        if target == "ctrl" and not m.n("nu"):
+            target = "qfrc_applied"
+    classes = [("deferred", 0)] if sleepmode else index_classes(m, target)     # sleep class: depends on the state after the warm-up
     vname = VNAMES[int(rng.integers(0, len(VNAMES)))]
     autoreset = bool(rng.random() < 0.6)
     pick = int(rng.integers(0, 1 << 30))
@@ -468,10 +721,12 @@ def inject_once(L, m, rng, P, c, k):
         P.case(nontrivial=False)
         return
     # choose the class first, then the element, so rare classes are not swamped
-    cnames = sorted({cn for cn, _ in classes})
-    cname = cnames[pick % len(cnames)]
-    members = [i for cn, i in classes if cn == cname]
-    idx = members[(pick // 97) % len(members)]
+    cname = idx = None
+    if not sleepmode:
+        cnames = sorted({cn for cn, _ in classes})
+        cname = cnames[pick % len(cnames)]
+        members = [i for cn, i in classes if cn == cname]
+        idx = members[(pick // 97) % len(members)]
     val = VALUES[vname]
     wit = {"case": {kk: v for kk, v in c.items() if not kk.startswith("_")}, "injection": k, "target": target,
            "index_class": cname, "index": idx, "value": vname, "autoreset": autoreset, "warm_steps": nstep,
@@ -481,8 +736,33 @@ def inject_once(L, m, rng, P, c, k):
     d = m.make_data()
     T = R = Z = PRE = None
     try:
+        if sleepmode:
+            try:
+                why = _warm_sleep(L, m, d, np.random.default_rng(wseed), meta)
+            except drv.MjError:
+                why = "warmup_engine_error"
+            if why is None:
+                classes = sleep_index_classes(m, d, target)
+                if not classes:
+                    why = "no_such_element:" + target
+            if why is not None:
+                P.count("skipped_sleep_" + why)
+                P.case(nontrivial=False)
+                return
+            # position class first (weighted towards awake dofs behind a sleeping tree), then the element
+            have = sorted({cn for cn, _ in classes})
+            pw = np.array([SPOSW[cn.split("_lim")[0].split("_unlim")[0]] for cn in have])
+            cname = have[int(np.random.default_rng([wseed, pick]).choice(len(have), p=pw / pw.sum()))]
+            members = [i for cn, i in classes if cn == cname]
+            idx = members[(pick // 97) % len(members)]
+            wit.update(index_class=cname, index=idx, sleep_pattern=meta["pattern"], sleep_roles=meta["roles"],
+                       tree_asleep=[int(x) for x in d["tree_asleep"]])
+            P.count("sleep_pattern:" + meta["pattern"])
+            ta = d["tree_asleep"]
+            for t, role in enumerate(meta["roles"]):
+                P.count("sleep_tree_%s_%s" % (role, "asleep" if ta[t] >= 0 else "awake"))
         try:
-            mech = _warm(L, m, d, np.random.default_rng(wseed), nstep)
+            mech = None if sleepmode else _warm(L, m, d, np.random.default_rng(wseed), nstep)
             if mech is not None:
                 # the model cannot even take one step from its reset state
                 if mech[0] == "nonfinite":
@@ -515,6 +795,11 @@ def inject_once(L, m, rng, P, c, k):
         dt = float(m.opt["timestep"])
         pos_bad = bool(refbad(d["qpos"]).any())
         vel_bad = bool(refbad(d["qvel"]).any())
+        vel_bad_asleep = False
+        if sleepmode:
+            aw0 = awake_dofs(m, d)
+            vel_bad = bool(refbad(d["qvel"][aw0]).any())
+            vel_bad_asleep = bool(refbad(d["qvel"][~aw0]).any())
         ctrl_bad = bool(refbad(ref_clamped_ctrl(m, d["ctrl"])).any()) and not (int(m.opt["disableflags"]) & E.mjDSBL_ACTUATION) \
             and m.n("nu") > 0
         # twin: forward only (no checks) to learn qacc
@@ -523,7 +808,7 @@ def inject_once(L, m, rng, P, c, k):
             T = d.copy()
             try:
                 T.forward()
-                acc_bad = bool(refbad(T["qacc"]).any())
+                acc_bad = bool(refbad(T["qacc"][awake_dofs(m, T)] if sleepmode else T["qacc"]).any())
             except drv.MjError as e:
                 P.count("twin_forward_engine_error")
                 acc_bad = None
@@ -555,7 +840,18 @@ def inject_once(L, m, rng, P, c, k):
         after = _counts(d)
         key = "%s:%s|%s|ar=%d|%s" % (target, cname, vname, autoreset, c["integrator"])
         triggered = "pos" if pos_bad else ("vel" if vel_bad else ("acc" if acc_bad else None))
-        P.count("inject_%s" % target)
+        if sleepmode:
+            key = "sleep:%s|%s" % (key, meta["pattern"])
+            pcl = cname.split("_lim")[0].split("_unlim")[0]
+            P.count("sleep_judged:%s:%s" % (pcl, target))
+            P.count("sleep_expect_%s:%s:autoreset_%s" % (triggered or ("ctrl" if ctrl_bad else "benign"), pcl, "on" if autoreset else "off"))
+            if vel_bad_asleep and not (pos_bad or vel_bad):
+                # bad qvel in a sleeping tree (see ASSUMPTIONS): which counter reports it is not documented
+                got = "BADQVEL" if after["mjWARN_BADQVEL"] > (0 if autoreset else before["mjWARN_BADQVEL"]) else \
+                    ("BADQACC" if after["mjWARN_BADQACC"] > (0 if autoreset else before["mjWARN_BADQACC"]) else "none")
+                P.count("sleep_asleep_qvel_reported_as_%s:twin_qacc_%s" % (got, "bad" if acc_bad else "ok"))
+                if autoreset and got == "BADQVEL":
+                    triggered = "vel"
         P.count("expect_%s_autoreset_%s" % (triggered or ("ctrl" if ctrl_bad else "benign"), "on" if autoreset else "off"))
         if acc_bad is None and not (pos_bad or vel_bad):
             P.count("skipped_twin_forward_failed")
@@ -571,6 +867,12 @@ def inject_once(L, m, rng, P, c, k):
 
         if autoreset:
             bad = [] if (target == "act" and triggered is None) else _finite_state(d)
+            if bad and sleepmode and vel_bad_asleep and triggered is None:
+                ok, ev = asleep_qvel_passes_checkvel(L, m, PRE)
+                if ok:
+                    P.count("sleep_asleep_qvel_nonfinite_confirmed_as_checkVel_before_wake")
+                    viol(SLEEP_QVEL_SIG, nonfinite=bad, mechanism_evidence=ev)
+                    bad = []
             if bad:
                 report_unchecked(P, L, m, PRE, bad, "injected-%s" % target, wit, restore)
             names = {"pos": "mjWARN_BADQPOS", "vel": "mjWARN_BADQVEL", "acc": "mjWARN_BADQACC"}
@@ -586,6 +888,11 @@ def inject_once(L, m, rng, P, c, k):
                 if fd:
                     viol("autoreset-on:state-after-%s-reset-differs-from-resetData+step:%s" % (names[triggered][7:], fd["component"]),
                          diff=fd)
+                if sleepmode:
+                    if d["tree_asleep"].tobytes() != R["tree_asleep"].tobytes():
+                        viol("autoreset-on:sleep-state-after-%s-reset-differs-from-resetData+step" % names[triggered][7:],
+                             got=[int(x) for x in d["tree_asleep"]], want=[int(x) for x in R["tree_asleep"]])
+                    P.count("sleep_reset_path_checked_%s:%s" % (triggered, pcl))
                 P.count("reset_path_checked_" + triggered)
             else:
                 for o in ("pos", "vel", "acc"):
@@ -610,6 +917,8 @@ def inject_once(L, m, rng, P, c, k):
                     viol("badctrl:spurious-warning:injected-%s" % target)
         else:
             exp = {"mjWARN_BADQPOS": pos_bad, "mjWARN_BADQVEL": vel_bad, "mjWARN_BADQACC": acc_bad, "mjWARN_BADCTRL": ctrl_bad}
+            if vel_bad_asleep and not vel_bad:
+                del exp["mjWARN_BADQVEL"]
             for wn, e in exp.items():
                 inc = after[wn] - before[wn]
                 if e and inc < 1:
@@ -704,7 +1013,12 @@ def worker(c):
     except drv.MjError:
         P.count("model_rejected")
         return P.result()
-    m.opt["enableflags"] = int(m.opt["enableflags"]) & ~E.mjENBL_SLEEP
+    if c.get("sleep"):
+        if not int(m.opt["enableflags"]) & E.mjENBL_SLEEP:
+            raise RuntimeError("sleep class model without mjENBL_SLEEP")
+        P.count("sleep_models")
+    else:
+        m.opt["enableflags"] = int(m.opt["enableflags"]) & ~E.mjENBL_SLEEP
     m.opt["integrator"] = getattr(E, c["integrator"])
     rng = np.random.default_rng(c["seed"])
     P.count("models@" + c.get("flavour", "rel"))
@@ -728,6 +1042,12 @@ def cases(ctx, n, ninj, flavour, tag):
         cs.append({"profile": ["rich", "contact", "smooth", "rich"][i % 4], "mseed": int(rng.integers(0, 2 ** 31)),
                    "seed": int(rng.integers(0, 2 ** 31)), "integrator": INTEGRATORS[(i // 4) % 4], "ninj": ninj, "flavour": flavour})
     return cs
+
+
+def sleep_cases(ctx, n, ninj, flavour, tag):
+    rng = ctx.subrng("sleep", tag)
+    return [{"sleep": True, "profile": "sleep", "mseed": int(rng.integers(0, 2 ** 31)), "seed": int(rng.integers(0, 2 ** 31)),
+             "integrator": INTEGRATORS[i % 4], "ninj": ninj, "flavour": flavour} for i in range(n)]
 
 
 def organic_cases(ctx, n):
@@ -804,18 +1124,20 @@ def run(ctx):
     ref_selftest()
     build.ensure("rel")
     fast = int(os.environ.get("VERIF_FAST", "0"))      # mutant screening: first 1/fast of the same case list, no ASan part
-    cs = cases(ctx, ctx.pick(120, 800), 40, "rel", "rel")
+    # the sleep class replaces a fifth of the general matrix of the quick tier (its models are small: the tier gets cheaper, not dearer)
+    cs = cases(ctx, ctx.pick(96, 800), 40, "rel", "rel")
+    sc = sleep_cases(ctx, ctx.pick(32, 160), 40, "rel", "rel")
     oc = organic_cases(ctx, ctx.pick(48, 300))
     if fast:
-        cs, oc = cs[:len(cs) // fast], oc[:len(oc) // fast]
-    cs = cs + oc
+        cs, sc, oc = cs[:len(cs) // fast], sc[:len(sc) // fast], oc[:len(oc) // fast]
+    cs = cs + sc + oc
     _collect(ctx, cs, par.run("vf.props.c30", "worker", cs, nproc=16, timeout=ctx.pick(300, 900)))
     if fast:
         ctx.min_nontrivial = 1
         return
     build.ensure("asan")
     acs = []
-    for c in cases(ctx, ctx.pick(8, 48), 25, "asan", "asan"):
+    for c in cases(ctx, ctx.pick(6, 40), 25, "asan", "asan") + sleep_cases(ctx, ctx.pick(2, 8), 25, "asan", "asan"):
         # small slices: a sanitizer abort loses at most five injections
         acs += [dict(c, k0=k0, ninj=k0 + 5) for k0 in range(0, 25, 5)]
     _collect(ctx, acs, par.run("vf.props.c30", "worker", acs, nproc=16, timeout=ctx.pick(1500, 2400), asan=True))
@@ -826,9 +1148,17 @@ def run(ctx):
     if sk > 0.25 * n:
         ctx.inconclusive("too many injections skipped (%d of %d)" % (sk, n))
     for need in ("reset_path_checked_pos", "reset_path_checked_vel", "reset_path_checked_acc", "badctrl_path_checked",
-                 "no_reset_path_checked"):
+                 "no_reset_path_checked", "sleep_reset_path_checked_acc:awake_hi", "sleep_reset_path_checked_vel:awake_hi",
+                 "sleep_reset_path_checked_pos:asleep_lo"):
         if not ctx.counters.get(need):
             ctx.inconclusive("path never exercised: " + need)
+    for pcl in SPOS:
+        for tg in STARGETS:
+            if not ctx.counters.get("sleep_judged:%s:%s" % (pcl, tg)):
+                ctx.inconclusive("sleep class never judged: %s in %s" % (pcl, tg))
+    for pat in SLEEP_PATTERNS:
+        if not ctx.counters.get("sleep_pattern:" + pat):
+            ctx.inconclusive("sleep order never generated: " + pat)
     ctx.min_nontrivial = ctx.pick(800, 2500)
 
 
